@@ -76,11 +76,23 @@ def _run_check(engine, tier, seed, t0):
     n_viol = 0
     known_hits = collections.Counter()
     lines = []
+    # known-finding matching may need counterfactual replays (fresh subjects): do it for all
+    # violating cases in parallel threads first
+    import concurrent.futures as _cf
+    km = {}
+    with _cf.ThreadPoolExecutor(max_workers=8) as ex:
+        futs = {ex.submit(engine.known_match, c, r, known): id(r) for c, r in viol}
+        for f, key in futs.items():
+            try:
+                km[key] = f.result()
+            except Exception as e:      # matching must never hide a violation
+                print('known_match failed: %r' % (e,))
+                km[key] = None
     for sig, lst in by_sig.items():
-        # 1. cheap: is every case of this signature covered by a listed finding?
+        # 1. is every case of this signature covered by a listed finding?
         unmatched = []
         for c, r in lst:
-            kf = engine.known_match(c, r, known)
+            kf = km.get(id(r))
             if kf is not None:
                 known_hits[kf['id']] += 1
             else:
